@@ -434,6 +434,7 @@ def build_plan(idx: int, seed: int, tier: str, rsp: bool, newline_pos: T.Optiona
     # strings, or an environment() object, whose constructor accepts the same three)
     ENV_FORMS = ['dict', 'list', 'string', 'ctor_list', 'ctor_string', 'ctor_dict']
     env_forms_used: T.Dict[str, str] = {}
+    envops: T.Dict[str, dict] = {}
 
     def env_form(pos: str, choices: T.Sequence[str] = ENV_FORMS) -> str:
         k = ALL_POS.index(pos)
@@ -473,7 +474,18 @@ def build_plan(idx: int, seed: int, tier: str, rsp: bool, newline_pos: T.Optiona
             L.append(f"{var}.set({mstr(keys_[0])}, {mstr(env_[keys_[0]])})")
         else:
             L.append(f'{var} = ' + env_expr({keys_[0]: env_[keys_[0]]}, form))
-        L.append(f"{var}.{method}({mstr(keys_[1])}, {mstr(env_[keys_[1]])})")
+        # append()/prepend(): one or two values, default or explicit separator.  Reference manual (env object): the values
+        # are joined by the separator and put after (append) / before (prepend) the variable's CURRENT value when it has
+        # one.  envops records the operation so that the check can give the variable an outer value.
+        vals_ = [env_[keys_[1]]]
+        if rng.random() < 0.4:
+            vals_.append(make_string(rng, rng.choice([c for c in CLASSES if c not in ('long', 'newline')]), b.tier, False))
+            b.calib.append(vals_[-1])
+        sep_ = rng.choice([None, None, ';', ' ', ',', '::'])
+        sepkw = f', separator: {mstr(sep_)}' if sep_ is not None else ''
+        L.append(f"{var}.{method}({mstr(keys_[1])}, {', '.join(mstr(v_) for v_ in vals_)}{sepkw})")
+        envops[pos] = {'key': keys_[1], 'method': method, 'values': vals_, 'sep': sep_ if sep_ is not None else os.pathsep}
+        env_[keys_[1]] = envops[pos]['sep'].join(vals_)
         return env_
 
     # ---- compile / link positions
@@ -794,6 +806,15 @@ def build_plan(idx: int, seed: int, tier: str, rsp: bool, newline_pos: T.Optiona
     else:
         ta = [make_string(rng, rng.choice([c for c in CLASSES if c != 'long']), b.tier, True) for _ in range(rng.choice([1, 2, 3]))]
     test_repeat = {'repeat': 2 + (idx % 2), 'test_args': ta}
+    # ---- outer environment: the variables that an env object appends / prepends to already have a value when the build
+    # (custom target through the pickled wrapper) resp. `meson test` (every execution, also under --repeat) runs.
+    # Present in most projects, absent in the rest (the variable-does-not-exist path stays covered).
+    def outer_for(pos: str, on: bool) -> T.Dict[str, str]:
+        if not on or pos not in envops:
+            return {}
+        return {envops[pos]['key']: make_string(rng, rng.choice([c for c in CLASSES if c not in ('long', 'empty')]), b.tier, True)}
+    outer_build = outer_for('ct_envobj.env', force is not None or idx % 2 == 0)
+    outer_test = outer_for('t_envobj.env', force is not None or idx % 3 != 1)
 
     # ---- literal calibration: the interpreter's values, dumped at configure time without any shell
     calib = list(dict.fromkeys(b.calib))
@@ -811,6 +832,7 @@ def build_plan(idx: int, seed: int, tier: str, rsp: bool, newline_pos: T.Optiona
         'setup_args': ['-Dc_args=' + pylist_literal(oa), '-Dc_link_args=' + pylist_literal(ola)],
         'calib': chunks, 'calibopt': list(oa) + ['<sep>'] + list(ola),
         'cmd': b.cmd, 'compile': b.compile, 'link': b.link, 'run_targets': run_targets, 'env_forms': env_forms_used, 'test_repeat': test_repeat,
+        'envops': envops, 'outer_env_build': outer_build, 'outer_env_test': outer_test,
         'strings': b.strings,
     }
 
